@@ -617,6 +617,30 @@ def fam_deep(draw, max_n=300):
     return {"atoms": atoms, "bonds": [[a, b, 1] for a, b in edges], "family": "deep:" + kind}
 
 
+# ---- four-digit indices at low cost ------------------------------------------------
+
+
+@st.composite
+def fam_bigcheap(draw):
+    """~1000..1300 atoms (indices and counts cross 999/1000) as a random tree over a few
+    elements: refinement is discrete after a handful of rounds, so the pipeline costs ~0.1 s."""
+    n = draw(st.sampled_from([999, 1000, 1001, 1023, 1024, 1100, 1250]))
+    r = random.Random(draw(st.integers(0, 2**32)))
+    pal = draw(st.sampled_from([[6, 7, 8, 16], [6, 1, 8], [14, 8], [6, 17, 55, 27]]))
+    zs = [r.choice(pal) for _ in range(n)]
+    span = draw(st.sampled_from([3, 30, 300]))
+    edges = [(r.randint(max(0, i - span), i - 1), i) for i in range(1, n)]
+    masses = [0] * n
+    rads = [0] * n
+    for _ in range(draw(st.integers(0, 4))):
+        i = r.randrange(n)
+        masses[i] = 2 * zs[i] + 1
+        if r.random() < 0.5:
+            rads[i] = 2
+    atoms = [[zs[i], masses[i], rads[i], 0, float(i), 0.0, 0.0] for i in range(n)]
+    return {"atoms": atoms, "bonds": [[a, b, 1] for a, b in edges], "family": "bigcheap"}
+
+
 # ---- long refinement relative to size ---------------------------------------------
 
 _SLOW = None
@@ -699,7 +723,7 @@ def fam_corpus(draw, max_n=200):
 # ------------------------------------------------------------------------ mixtures
 
 
-def mols(tier="quick", families=("er", "skeleton", "wlhard", "chem", "deep", "corpus", "multi"), wide=False):
+def mols(tier="quick", families=("er", "skeleton", "wlhard", "chem", "deep", "corpus", "multi", "bigcheap"), wide=False):
     q = tier == "quick"
     table = {
         "er": [fam_er(14 if q else 20, wide=wide), fam_er(8, wide=wide), fam_er(40 if q else 80, wide=wide)],
@@ -709,6 +733,7 @@ def mols(tier="quick", families=("er", "skeleton", "wlhard", "chem", "deep", "co
         "deep": [fam_deep(120 if q else 600), fam_slowwl()],
         "corpus": [fam_corpus(120 if q else 400)],
         "multi": [fam_multi(40 if q else 120)],
+        "bigcheap": [fam_bigcheap()],
     }
     parts = []
     for f in families:
